@@ -297,7 +297,7 @@ def run(rep, facts, tier):
                     rep.add('C03.R2', 'C03.R2:rawptr:%s' % fn, ok, 'mmap pointer (reviewed)' if ok else
                             '%s creates a raw pointer (%s): writes through it bypass the copy-on-write check' % (short(fn), f.ty(st['lhs']['t'])),
                             fn, st.get('at'))
-    rep.floor('C03.R2 alias-producing call sites', n_alias, 4)
+    rep.floor('C03.R2 alias-producing call sites', n_alias, 3)
     rep.note('C03.R2: %d length-only raw-const pointers (consumed by PtrMetadata alone) not counted as raw views' % n_lenptr)
     # data_mut really goes through make_mut then to_mut
     dm = fx.need('bitstr::Bitstr::data_mut')
@@ -400,6 +400,22 @@ def run(rep, facts, tier):
     rep.add('C03.R5', 'C03.R5:no-statics', not fx.j.get('statics'), 'the crate defines no static items (no global or thread-local state)'
             if not fx.j.get('statics') else 'static items present: %s' % [s_['path'] for s_ in fx.j['statics']], None, None, nontrivial=False)
 
+    # a `'static` view of memory is honest only if the memory is never freed.  Bit-strings borrow the mapped input without
+    # keeping it alive and outlive the interpreter (a value popped by the host): the mapping they borrow is leaked, not stored
+    # in something that is dropped (a heap cell of the State)
+    lb = fx.fns.get('file::fs_overlay::load_binary')
+    if lb is not None:
+        maps = [(bb, t) for bb, t in lb.calls() if (callee_of(t) or '').endswith('Mmap::map') or 'MmapOptions' in (callee_of(t) or '')]
+        if maps:
+            leaks = [(bb, t) for bb, t in lb.calls() if (callee_of(t) or '').startswith('alloc::boxed::Box::<T') and (callee_of(t) or '').endswith('::leak') or (callee_of(t) or '').endswith('mem::forget')]
+            raw = [(bb, t) for bb, t in lb.calls() if (callee_of(t) or '').endswith('from_raw_parts')]
+            stored = [(bb, t) for bb, t in lb.calls() if (callee_of(t) or '').endswith('from_any')]
+            okm = bool(leaks) and not raw and not stored
+            rep.add('C03.R6', 'C03.R6:file::fs_overlay::load_binary:static-view-of-memory-that-stays', okm,
+                    'the mapping is leaked (Box::leak) and the view is a plain borrow of it' if okm else
+                    'load_binary makes a `&\'static [u8]` over a mapping that is %s: a bit-string popped by the host and used after the '
+                    'interpreter is dropped reads unmapped memory' % ('stored in a cell of the interpreter' if stored else 'not leaked'),
+                    lb.name, maps[0][1].get('at'))
     # ---------- R6
     ub = fx.j.get('unsafe_blocks', [])
     for u in ub:
